@@ -227,9 +227,11 @@ def chisq(ix, R):
     why = []
     if not (m.kw.get('wngrid') is not None and fl.tab.equal(m.kw['wngrid'], code(fl, 'self._observed.wavenumberGrid'))):
         why.append('model(%s)' % {k: fmt(fl, v) for k, v in m.kw.items()})
-    if unparse(m.node.func) != 'self._model.model':
+    if m.fn is None or fl.canon(m.fn) != fl.canon('self._model.model'):
         why.append('evaluates %s' % unparse(m.node.func))
-    if unparse(bm.node.func) != 'self._binner.bin_model' or len(bm.node.args) != 1 or bm.node.args[0] is not m.node:
+    a0 = atom_of(fl, bm.args[0]) if len(bm.args) == 1 else None
+    if bm.fn is None or fl.canon(bm.fn) != fl.canon('self._binner.bin_model') or a0 is None or a0.head != 'call' or \
+            a0.extra[0] != 'fn:' + fl.canon('self._model.model'):
         why.append('binning is %s' % unparse(bm.node))
     R.check('3.eval', 'ARG', site,
             'the forward model is evaluated on the observation grid and binned by the observation binner',
@@ -254,7 +256,7 @@ def chisq(ix, R):
     tries = [n for n in walk_no_nested(f.node) if isinstance(n, ast.Try)]
     why = []
     t = one(tries, 'try')
-    inside = any(n is m.node for s in t.body for n in ast.walk(s))
+    inside = any(x is t for x in m.trys) and any(x is t for x in bm.trys)
     if not inside:
         why.append('model evaluation is outside the try')
     hs = t.handlers
@@ -335,32 +337,20 @@ def update_model(ix, R):
                         why.append('prior call is %s' % unparse(e.node))
                     # the setter call
                     setter = fl.tab.atom('idx', (el(roles['par']), fl.tab.const(3)))
-                    sc = [x for x in fl.of('call') if x.loops == e.loops and x is not e
-                          and x.name not in ('error', 'debug', 'info', 'warning')]
-                    okc = False
-                    for x in sc:
-                        fnrf = fl.env.get(unparse(x.node.func)) if False else None
-                    # setter call appears as callexpr / call of local name bound to idx(param,3)
-                    setcalls = [n for n in ast.walk(lp.node) if isinstance(n, ast.Call) and
-                                isinstance(n.func, ast.Name) and n.args and n.args[0] is e.node]
+                    LOGGING = ('error', 'debug', 'info', 'warning', 'critical', 'print')
+                    want = fl.tab.atom('mcall', (el(roles['pri']), el(roles['v'])), extra=('fn:prior',))
+                    setcalls = [x for x in fl.of('call') if x.loops == e.loops and x is not e and
+                                getattr(x, 'func_rf', None) is not None and fl.tab.equal(x.func_rf, setter)]
                     if len(setcalls) != 1:
-                        why.append('prior-transformed value is not passed straight to the setter')
-                    else:
-                        nm = setcalls[0].func.id
-                        # which tuple slot is it?
-                        unp = [s for s in lp.node.body if isinstance(s, ast.Assign) and
-                               isinstance(s.targets[0], ast.Tuple)]
-                        slot = None
-                        for s in unp:
-                            names = [x.id if isinstance(x, ast.Name) else None for x in s.targets[0].elts]
-                            if nm in names and isinstance(s.value, ast.Name):
-                                slot = names.index(nm)
-                                if len(names) != 7:
-                                    why.append('fitting tuple unpacked into %d names' % len(names))
-                        if slot != 3:
-                            why.append('setter is taken from slot %s of the fitting tuple (setter is slot 3)' % slot)
-                    others = [x for x in fl.of('call') if x.loops and x.name not in ('prior',) and
-                              not (isinstance(x.node.func, ast.Name))]
+                        slots = [fmt(fl, x.func_rf) for x in fl.of('call') if x.loops and getattr(x, 'func_rf', None) is not None]
+                        why.append('the setter (slot 3 of the fitting tuple) is called %d times in the loop; local callables '
+                                   'called: %s' % (len(setcalls), slots))
+                    elif len(setcalls[0].args) != 1 or setcalls[0].kw or not fl.tab.equal(setcalls[0].args[0], want):
+                        why.append('prior-transformed value is not passed straight to the setter: %s' % unparse(setcalls[0].node))
+                    elif [g.node for g in setcalls[0].guards] != [g.node for g in e.guards]:
+                        why.append('the setter runs under %s' % [g.text() for g in setcalls[0].guards])
+                    others = [x for x in fl.of('call') if x.loops and x is not e and x not in setcalls and
+                              x.name not in LOGGING and x.name != 'format']
                     if others:
                         why.append('other calls in the loop: %s' % [unparse(x.node)[:40] for x in others])
         lenchk = spec(fl, 'len(p) != len(self.fitting_parameters)', pe)
